@@ -1,5 +1,5 @@
 \* (E) exhaustive, quick: all command sequences of length <= 6, 6 candidate locations (4 globals + 2 scoped locals), spread request table
-SPECIFICATION Spec
+SPECIFICATION SpecE
 CONSTANTS
   Globals = {"G0", "G1", "G2", "G3"}
   Locals = {"LA", "LB"}
